@@ -259,6 +259,9 @@ def collection_effects(prog):
             if not kind:
                 continue
             flds = [x for x in prims.field_of_receiver(f, c) if x and not x.isdigit()]
+            if not flds and c.args:
+                # a collection behind a lock: `self.set.lock().expect(..).insert(x)` - the field the guard was taken from
+                flds = [o.data[1] for o in core.origins(f, c.args[0], stop_fields=True) if o.kind == 'field']
             if not flds:
                 continue
             eff.setdefault(prog.fns[f.id].root, set()).add((flds[-1], kind))
